@@ -1,17 +1,19 @@
 import H2.Proofs.ClientInter
-import H2.Client.Model
+import H2.Proofs.ClientGoAway
 /-!
 # C11 — the client honours GOAWAY; only a never-processed request is called retryable
 
-* `retry_sound` (all interleavings of `Write`, `Close`, the write loop and its teardown, the read loop,
-  timers — model `H2.Client.Inter`): a request whose caller reads an error that `retryable` accepts never
-  had its HEADERS written. Proved for the code after fix F42; `F42_prefix_witness` shows the code before
-  it reaches "written and reported retryable".
+* `retry_sound` (all interleavings of `Write`, `Close`, the write loop and its teardown, the read loop with
+  `finish` and `afterGoAway`, timers — model `H2.Client.Inter`): a request whose caller reads an error that
+  `retryable` accepts either never had its HEADERS written or was disclaimed by the server's GOAWAY (its
+  stream is above last-stream-id). Proved for the code after fix F42; `F42_prefix_witness` shows the code
+  before it reaches "written, not disclaimed and reported retryable".
 * `no_stream_after_goaway` (serial model `H2.Client.step`, the one compared with the real `Conn`): once a
   GOAWAY has been processed, `writeRequest` writes nothing and turns the request away with the retryable
   `ErrNotAvailableStreams`.
-* `C11_full` keeps the rest of the property text visible: requests above last-stream-id end promptly,
-  those at or below it complete. The code does neither (finding F37, known): `F37_witness_*`.
+* `C11_full`, the rest of the property text: requests above last-stream-id end promptly, with an error, those at
+  or below it are kept and the read loop goes on for them. Refuted before the repair of F37 (`C11_full_fails`,
+  `F37_witness_*`), now the theorem `goaway_honoured`; the old witnesses are the regression examples.
 -/
 namespace H2.Props.C11
 
@@ -21,16 +23,24 @@ open H2.Client
 
 open H2.Client.Inter in
 /-- **retry_sound**: whatever the interleaving, a caller that reads a retryable error has a request whose
-HEADERS were never written (so re-sending it cannot make the server process it twice) -/
+HEADERS were never written, or one the server disclaimed in its GOAWAY (so re-sending it cannot make a server
+process it twice) -/
 theorem retry_sound {s : Inter.S} (h : Inter.Reach recheckFixed s) (i : Nat)
-    (hr : (s.r i).result = some .retryable) : (s.r i).written = false :=
+    (hr : (s.r i).result = some .retryable) : (s.r i).written = false ∨ (s.r i).disclaimed = true :=
   ((reachB h).b4 i hr).1
 
 open H2.Client.Inter in
 /-- the same for a value still waiting in the channel -/
 theorem retry_sound_pending {s : Inter.S} (h : Inter.Reach recheckFixed s) (i : Nat)
-    (hr : (s.r i).errBuf = some .retryable) : (s.r i).written = false :=
+    (hr : (s.r i).errBuf = some .retryable) : (s.r i).written = false ∨ (s.r i).disclaimed = true :=
   ((reachB h).b3 i hr).1
+
+open H2.Client.Inter in
+/-- only a request whose HEADERS went out is ever marked as disclaimed: the second alternative of `retry_sound` is
+"written and disclaimed" -/
+theorem disclaimed_was_written {s : Inter.S} (h : Inter.Reach recheckFixed s) (i : Nat)
+    (hd : (s.r i).disclaimed = true) : (s.r i).written = true :=
+  (reachB h).b6 i (.inl hd)
 
 open H2.Client.Inter in
 /-- **headers_at_most_once** on a connection: a request comes off the queue at most once -/
@@ -43,13 +53,14 @@ open H2.Client.Inter in
 with no reason recorded yet, `Write`'s second select resolves with `ErrConnectionClosed`, the caller
 reads it: written and reported retryable. Replayed on the real code through the yield points
 (findings/F42-C11-before.json). -/
-theorem F42_prefix_witness : ∃ s, Inter.Reach recheckOld s ∧ (s.r 0).written = true ∧ (s.r 0).result = some .retryable := by
+theorem F42_prefix_witness : ∃ s, Inter.Reach recheckOld s ∧ (s.r 0).written = true ∧ (s.r 0).disclaimed = false ∧
+    (s.r 0).result = some .retryable := by
   have r1 := Reach.step (rv := recheckOld) Reach.init (Step.enqueue init 0 rfl)
   have r2 := Reach.step r1 (Step.wlTakeWrite _ 0 rfl rfl)
   have r3 := Reach.step r2 (Step.close _)
   have r4 := Reach.step r3 (Step.recheckD _ 0 rfl rfl)
   have r5 := Reach.step r4 (Step.read _ 0 .retryable rfl rfl)
-  exact ⟨_, r5, rfl, rfl⟩
+  exact ⟨_, r5, rfl, rfl, rfl⟩
 
 open H2.Client.Inter in
 /-- non-vacuity of `retry_sound`: a retryable result is reachable (a request turned away by
@@ -61,13 +72,28 @@ example : ∃ s, Inter.Reach recheckFixed s ∧ (s.r 0).result = some .retryable
   have r4 := Reach.step r3 (Step.read _ 0 .retryable rfl rfl)
   exact ⟨_, r4, rfl⟩
 
+
+open H2.Client.Inter in
+/-- non-vacuity of the second alternative: a written request the server disclaims is reported retryable -/
+example : ∃ s, Inter.Reach recheckFixed s ∧ (s.r 0).written = true ∧ (s.r 0).disclaimed = true ∧
+    (s.r 0).result = some .retryable := by
+  have r1 := Reach.step (rv := recheckFixed) Reach.init (Step.enqueue init 0 rfl)
+  have r2 := Reach.step r1 (Step.recheckN _ 0 rfl rfl)
+  have r3 := Reach.step r2 (Step.wlTakeWrite _ 0 rfl rfl)
+  have r4 := Reach.step r3 (Step.refuse _ 0 .retryable rfl (by decide))
+  have r5 := Reach.step r4 (Step.read _ 0 .retryable rfl rfl)
+  exact ⟨_, r5, rfl, rfl, rfl⟩
+
 /-! ## GOAWAY on the serial model -/
 
 /-- processing a GOAWAY frame sets the flag `CanOpenStream` reads -/
 theorem goaway_sets_flag (c : Conn) (f : Frame.Frame) (last code : Nat) (d : Bytes)
     (hs : f.stream = 0) (hb : f.body = .goAway last code d) : (rdFrame c f).1.goAway = true := by
   simp only [rdFrame, hs, hb]
-  by_cases h0 : last = 0 <;> simp [h0, setLastErr] <;> split <;> rfl
+  by_cases h0 : last = 0
+  · simp [h0, setLastErr]; split <;> rfl
+  · simp only [beq_self_eq_true, if_true, beq_iff_eq, h0, if_false, afterGoAway]
+    exact (refuseAbove_table _ _).2.1
 
 /-- **no_stream_after_goaway**: with the flag set, `writeRequest` writes no frame, allocates no stream
 id and leaves the request with `ErrNotAvailableStreams` -/
@@ -79,41 +105,94 @@ theorem no_stream_after_goaway (c : Conn) (r : ReqSpec) (hg : c.goAway = true) :
 /-- and that error is one a caller may retry on another connection -/
 theorem turned_away_is_retryable : Err.noStreams.retryable = true := by decide
 
-/-- nothing else the connection reports is retryable except the two "never sent" sentinels -/
+/-- nothing else the connection reports is retryable except the two "never sent" sentinels and the error of a
+request the server's GOAWAY disclaimed (`goAwayErr`, which wraps `ErrConnectionClosed`) -/
 theorem retryable_iff (e : Err) : e.retryable = true ↔ (e = .connClosed ∨ e = .noStreams ∨ e = .noIds) := by
   cases e <;> simp [Err.retryable] <;> decide
 
-/-! ## the part of the property the code does not meet (F37, known finding) -/
+/-- a disclaimed request is never reported as successful … -/
+theorem goAwayErr_ne_ok (r : Req) : goAwayErr r ≠ .ok := by
+  simp only [goAwayErr]; split <;> simp
 
-/-- full statement for the serial model: after a GOAWAY with last-stream-id `last` is processed, every
-request still waiting on a stream above `last` has a result, and no later server frame on a stream at or
-below `last` ends the read loop -/
+/-- … and is called retryable exactly when its body did not come from a reader (one that did has been consumed and
+cannot be sent a second time) -/
+theorem goAwayErr_retryable (r : Req) : (goAwayErr r).retryable = !r.streamed := by
+  cases h : r.streamed <;> simp [goAwayErr, h, Err.retryable] <;> decide
+
+/-! ## the rest of the property: prompt failure above last-stream-id, the accepted streams are kept -/
+
+/-- full statement for the serial model.
+(1) When a GOAWAY with last-stream-id `last > 0` is processed, no request on a stream above `last` stays in the
+table, and every request that was waiting there has a result (`refuse_resolves`: the error `goAwayErr`) unless its
+caller has taken it back already.
+(2) From then on the read loop stops after a stream frame only if `dispatch` says so (a flow-control error) or no
+request at all is left waiting; and what it removes from the table are streams above `last` only. -/
 def C11_full : Prop :=
   (∀ (c : Conn) (f : Frame.Frame) (last code : Nat) (d : Bytes), f.stream = 0 → f.body = .goAway last code d → last > 0 →
-      ∀ q ∈ (rdFrame c f).1.reqs, q.sid > last → (lookupA c.reqQueued q.sid).isSome → q.errBuf.isSome) ∧
-  (∀ (c : Conn) (f : Frame.Frame), c.stateClosed = true → f.stream ≤ c.closeRef → f.stream ≠ 0 →
-      ¬ Frame.hasFlag f.flags Gen.c_FlagEndStream → (match f.body with | .data _ _ => True | _ => False) →
-      (rdFrame c f).2 = false)
+      (∀ p ∈ (rdFrame c f).1.reqQueued, p.1 ≤ last) ∧
+      (∀ p ∈ c.reqQueued, p.1 > last → Settled (rdFrame c f).1 p.2)) ∧
+  (∀ (c : Conn) (f : Frame.Frame),
+      ((dispatchLoop c f).2 = true → (dispatch c f).2 = true ∨ (dispatchLoop c f).1.reqQueued = []) ∧
+      (∀ p ∈ (dispatch c f).1.reqQueued, p.1 ≤ (dispatch c f).1.closeRef → p ∈ (dispatchLoop c f).1.reqQueued))
+
+theorem goaway_honoured : C11_full := by
+  constructor
+  · intro c f last code d hs hb hl
+    have h0 : last ≠ 0 := by omega
+    simp only [rdFrame, hs, hb, beq_self_eq_true, if_true, beq_iff_eq, h0, if_false, afterGoAway]
+    obtain ⟨_, _, _, t4, _⟩ := refuseAbove_table c.reqQueued { c with goAway := true, closeRef := last, stateClosed := true }
+    constructor
+    · intro p hp
+      obtain ⟨hm, hne⟩ := t4 p hp
+      by_cases hgt : p.1 > last
+      · exact absurd rfl (hne p hm hgt)
+      · omega
+    · intro p hp hgt
+      exact (refuseAbove_settles c.reqQueued { c with goAway := true, closeRef := last, stateClosed := true }).2 p hp hgt
+  · intro c f
+    simp only [dispatchLoop, afterGoAway]
+    rcases hd : dispatch c f with ⟨c1, stop⟩
+    simp only
+    split
+    · obtain ⟨_, _, _, t4, t5⟩ := refuseAbove_table c1.reqQueued c1
+      refine ⟨?_, fun p hp hle => t5 p hp hle⟩
+      intro h
+      simp only [Bool.or_eq_true] at h
+      rcases h with h | h
+      · exact .inl h
+      · right
+        rw [List.eq_nil_iff_forall_not_mem]
+        intro p hp
+        obtain ⟨hm, hne⟩ := t4 p hp
+        have hgt : p.1 > c1.closeRef := by
+          have := List.all_eq_true.mp h p hm
+          simpa using this
+        exact hne p hm hgt rfl
+    · exact ⟨fun h => .inl h, fun p hp _ => hp⟩
+
+/-! ## the inputs of finding F37, now regression examples -/
 
 def cW : Conn := { reqs := [{ tag := "a", sid := 1, hasConn := true }, { tag := "b", sid := 3, hasConn := true }],
                    reqQueued := [(1, "a"), (3, "b")], nextID := 5, openStreams := 2 }
 
 def goAwayFrame : Frame.Frame := ⟨Gen.c_FrameGoAway, 0, 0, 8, .goAway 1 0 []⟩
 
-/-- F37, first half: GOAWAY(last = 1) leaves the request on stream 3 waiting -/
-theorem F37_witness_above :
-    (rdFrame cW goAwayFrame).1.reqs.any (fun q => decide (q.sid > 1) && !q.errBuf.isSome) = true := by
+/-- GOAWAY(last = 1) used to leave the request on stream 3 waiting: it now has the retryable error at once, the
+request on stream 1 is left alone (non-vacuity of the first half of `goaway_honoured`) -/
+theorem F37_regression_above :
+    (rdFrame cW goAwayFrame).1.reqs.map (fun q => (q.sid, q.errBuf)) = [(1, none), (3, some .connClosed)] ∧
+    (rdFrame cW goAwayFrame).1.reqQueued = [(1, "a")] ∧ (rdFrame cW goAwayFrame).2 = false := by
   decide
 
-/-- F37, second half: after that GOAWAY a DATA frame without END_STREAM on stream 1 stops the read loop -/
-theorem F37_witness_last :
-    (rdFrame (rdFrame cW goAwayFrame).1 ⟨Gen.c_FrameData, 0, 1, 1, .data false [120]⟩).2 = true := by
+/-- after that GOAWAY a DATA frame without END_STREAM on stream 1 used to stop the read loop: it goes on … -/
+theorem F37_regression_last :
+    (rdFrame (rdFrame cW goAwayFrame).1 ⟨Gen.c_FrameData, 0, 1, 1, .data false [120]⟩).2 = false := by
   decide
 
-theorem C11_full_fails : ¬ C11_full := by
-  intro ⟨h1, h2⟩
-  have := h2 (rdFrame cW goAwayFrame).1 ⟨Gen.c_FrameData, 0, 1, 1, .data false [120]⟩ (by decide) (by decide) (by decide) (by decide) trivial
-  rw [F37_witness_last] at this
-  cases this
+/-- … until the response on stream 1 is complete -/
+example :
+    (rdFrame (rdFrame (rdFrame cW goAwayFrame).1 ⟨Gen.c_FrameHeaders, 4, 1, 1, .headers false true none [0x88]⟩).1
+      ⟨Gen.c_FrameData, 1, 1, 1, .data true [120]⟩).2 = true := by
+  decide
 
 end H2.Props.C11
